@@ -29,7 +29,11 @@ TEMPLATE = '[Trash Info]\nPath=%s\nDeletionDate=%s\n'
 # (evaluated by the sibling module on the same graphs, reported under this property)
 ALSO = {'C01': {'R01.3': 'the reservation is released only when the payload did not move (also at a '
                   'kill between the two)',
-         'R01.6': 'closed effect set: every crash point lies between these effects'},
+         'R01.6': 'closed effect set: every crash point lies between these effects',
+         'R01.7': 'copy+delete (whose failure leaves the entry partly in each place) is '
+                  'taken for EXDEV only'},
+ 'C18': {'R18.3': 'what is moved -- and copied by the fallback -- is the normalised argument: '
+                  '"link/" names the link, not the directory behind it'},
  'C02': {'R02.2': 'when the move has to copy, it copies the whole entry and then deletes the '
                   'source (copy_function)'},
  'C04': {'R04.1': 'exclusive creation',
